@@ -39,6 +39,11 @@ def spec(chk, quick):
         if mode == 10 and rng.uniform() < 0.3:
             e0 = genmon.e0_of(table, iso, level, mode)
             cheap.append("D %s %d %d 1 %.17g %.17g" % (iso, level, mode, 0.0, max(0.03125, int(e0 * 32) / 64.0)))
+    # the BxDecay0-only gA modes on the synthetic data sets (one table per nuclide and process, all different): listed together, so
+    # that the "earlier life as the next configuration" history pairs a gA table with another one
+    for iso in ("Se82", "Mo100", "Cd116", "Nd150"):
+        for mode in (21, 22, 23, 24):
+            cheap.append("D %s 0 %d 0 0 0" % (iso, mode))
     for (iso, level, mode) in rng.sample(exp_cells, 24 if quick else 200):
         costly.append("D %s %d %d 0 0 0" % (iso, level, mode))
     # windows on the quadrature-heavy modes (per-event spectrum tables live in the instance): lower bound > 0, 1/64 MeV lattice
@@ -97,7 +102,18 @@ def statics_monitor(chk, quick):
     table = schemes.ref_dbd_table()
     rng = Rng(chk.seed, 708)
     cells = [(i, l, m) for i in sorted(table) for l in sorted(table[i]["levels"]) for m in (1, 2, 3, 7, 9, 10, 11, 12, 17, 20) if genmon.rule_accepts(table, i, l, m)]
-    for (i, l, m) in rng.sample(cells, 60 if quick else 400):
+    picked = rng.sample(cells, 60 if quick else 400)
+    # every mode with at least three different isotopes in the pool: a value cached at the first use of a mode is only wrong for the
+    # second isotope that uses it (mode 20 exists for Zr96, Xe136 and Nd150 only: all three are always in)
+    for m in (1, 2, 3, 7, 9, 10, 11, 12, 17, 20):
+        have = {c[0] for c in picked if c[2] == m}
+        for c in cells:
+            if len(have) >= 3:
+                break
+            if c[2] == m and c[0] not in have:
+                picked.append(c)
+                have.add(c[0])
+    for (i, l, m) in picked:
         lines.append("D %s %d %d" % (i, l, m))
     f = tempfile.NamedTemporaryFile("w", suffix=".spec", delete=False, dir=build.variant_dir("plain"))
     f.write("\n".join(lines) + "\n")
@@ -251,7 +267,7 @@ def main():
         "distinct_nontrivial": nconf * kinds,
         "rule": "for each configuration and tape T the canonical event (fresh generator, fresh event, first shot) is compared bit for bit with the "
                 "event after each history: k prior shots (1, 7, 1000), reused event object, event pre-filled with 0..150 junk particles, capacity "
-                "forced to 1..9/16/200, moved-from event, other instances (incl. failed and gA initialisations) created/shot/reset/destroyed in between, "
+                "forced to 1..9/16/200, moved-from event, an earlier life of the instance as another configuration (incl. the 16 gA tables), other instances (incl. failed and gA initialisations) created/shot/reset/destroyed in between, "
                 "reset()+identical re-configuration, an abandoned configuration (window + operation, never initialised or initialisation raised) followed by "
                 "reset() and the real configuration, initialisation with another deviate source, two live twins alternating, and a stream of >=300 tapes shot "
                 "forwards by one instance and backwards by its twin (every event of the stream compared); static-storage monitor: the "
